@@ -218,7 +218,7 @@ impl Engine for SsSwapValue {
         let n = s.amounts.len();
         let oi = c.oi as usize % n;
         let ai = (oi + 1 + c.ai as usize % (n - 1)) % n;
-        let offer = exact::to_u128(&(big(s.amounts[oi]) * big(c.offer_ppm as u128) / big(1_000_000) + big(c.jitter as u128))).max(1);
+        let offer = exact::to_u128_sat(&(big(s.amounts[oi]) * big(c.offer_ppm as u128) / big(1_000_000) + big(c.jitter as u128))).max(1);
         let oc = coin(offer, format!("d{oi}"));
         let ask = format!("d{ai}");
         let info = s.info.clone();
@@ -319,7 +319,7 @@ impl Engine for SsMint {
         let mut any = false;
         let mut partial = false;
         for i in 0..n {
-            let dep = exact::to_u128(&(big(s.amounts[i]) * big(c.dep_ppm[i] as u128) / big(1_000_000)));
+            let dep = exact::to_u128_sat(&(big(s.amounts[i]) * big(c.dep_ppm[i] as u128) / big(1_000_000)));
             let dep = if c.dep_ppm[i] > 0 { dep.max(1) } else { 0 };
             if dep > 0 {
                 any = true;
